@@ -46,6 +46,17 @@ let handle (line : string) : string =
   | "mem" :: rest -> Fsm_io.run_mem rest
   | "node" :: rest -> Node_io.run_node rest
   | "board" :: rest -> run_board rest
+  | "lag" :: rest ->
+    (* lag x1 y1 x2 y2 ... : Lagrange combination at 0 *)
+    let rec pairs l = match l with a :: b :: r -> (z_of_dec a, z_of_dec b) :: pairs r | _ -> [] in
+    "lag " ^ dec_of_z (M.lagrange0_z (pairs rest))
+  | "ped" :: rest ->
+    (* ped <ndealers> <t> c.. | <i> : share of participant i and the group secret *)
+    let a = Array.of_list rest in
+    let nd = int_of_string a.(0) and t = int_of_string a.(1) in
+    let dealers = List.init nd (fun j -> List.init t (fun k -> z_of_dec a.(2 + j * t + k))) in
+    let i = z_of_dec a.(2 + nd * t + 1) in
+    "ped share=" ^ dec_of_z (M.share_z dealers i) ^ " secret=" ^ dec_of_z (M.group_secret_z dealers)
   | "rmwlabels" :: _ ->
     let sh l = String.concat "," (List.map (fun x -> string_of_int (int_of_n (M.N.of_nat x))) l) in
     "rmwlabels request=" ^ sh M.a_labels ^ " poller=" ^ sh M.b_labels
